@@ -95,6 +95,11 @@ def c01_match_int():
     return _differs('99999~100000', ("i", 0)) or _differs('[1 [99999]]~[1 [100000]]', ("i", 0))
 
 
+def c01_list_cells():
+    return (_differs('a::[[1 [2 [3]]] [[[4]] 5]];,/a@0', [("i", 1), ("i", 2), _i(3)])
+            or _differs("{,/:~x}'[[1 [2 [3]]] [[[4]] 5]]", [_i(1, 2, 3), _i(4, 5)]))
+
+
 def c02_over_char():
     return _differs(',/"a"', ("c", "a"))
 
@@ -327,6 +332,7 @@ PROBES = {
     "C01/format-list-recursion": c01_format_list, "C01/first-of-string-is-string": c01_first_string, "C01/max-nested": c01_max_nested,
     "C01/min-nested": c01_min_nested, "C01/remainder-nested": c01_rem_nested, "C01/take-matrix-overshoot": c01_take_matrix,
     "C01/group-order": c01_group_order, "C01/match-integers-with-tolerance": c01_match_int,
+    "C01/list-cells-in-rectangular-literal": c01_list_cells,
     "C02/over-single-char-string": c02_over_char,
     "C03/projection-of-projection-hole-order": c03_projection_order, "C03/dot-f-loses-locals": c03_dotf_locals,
     "C04/parse-cache-skips-module-switch": c04_module_cache,
